@@ -1,5 +1,5 @@
 """C11 - anytime algorithms are safe to interrupt and only ever improve."""
-from .. import core, scope, drive
+from .. import core, scope, drive, models
 from .common import *
 
 
@@ -9,6 +9,8 @@ def run(ck):
     for which in (1, 2, 3, 4):
         ck.mc("Anytime", "CONSTANT Which = %d\nINIT AInit\nNEXT ANext\nINVARIANT ResultValid\nINVARIANT OptimalWhenExhausted\nPROPERTY Monotone\n" % which,
               "MC abstract anytime search: ResultValid, Monotone, OptimalWhenExhausted on case %d" % which, workers=4)
+    # L1: complete greedy with the Interrupt action enabled in every loop state: TLC explores every interruption point of every input / configuration
+    models.cg_mc(ck, 4, 3, 3, models.SW_SOME if q else models.SW_ALL, True, ["ResultValid", "ResultNotNone", "BestConsistent", "FirstIsLPT"], props=["Monotone"])
     P = scope.p_scope(ck, 4 if q else 5, 4, 3)
     ck.exhaustive = True
     stim = []
